@@ -1,5 +1,6 @@
 import Thanos.Common.Parse
 import Thanos.Model.Hashring
+import Thanos.Model.MultiRing
 /-
   Line-protocol driver of the `hashring` family (C18 C19 C20 C21 C27).
   One request per line, one answer per line; every line is self-contained.
@@ -21,6 +22,14 @@ import Thanos.Model.Hashring
 
   keta <rf> <eps> <pos> <series>            the ring without endpoint number pos of eps, and the ring of eps
     -> <A_before> <A_after>                  (both in positions of eps; GetN for n = 0 .. rf-1)
+
+  route <cfgs> <reqs>                       a history of requests on one multi hashring (with its cache)
+      cfgs    `|`-list of <type>:<tenants>    type e ("exact") | x ("") | g ("glob") | o (anything else);
+              tenants = `,`-list of hex names / patterns (`-` = the empty name), `~` = no tenant list (default hashring)
+      reqs    `;`-list of <tenanthex>:<tab>/<tab>/…   one table per configuration: filepath.Match of
+              each of its patterns against the tenant, a string over y n b (ErrBadPattern), `-` if empty
+    -> `;`-list: index of the chosen hashring | none | err | <i>?err (map-order dependent)
+  routem <cfgs> <req>                       one uncached request (malformed-pattern stream)
 
   mod <nq> <addrs> <series>                 hashmod ring; addrs = `,`-list of <addrhex>
     -> <G>          gi = first position of the answered address in addrs | I
@@ -126,6 +135,51 @@ def modG (nq : Nat) (orig addrs : List (List Nat)) (vs : List Nat) : String :=
     | .node _ => match simpleGet addrs v n with | some a => addrIndex orig a | none => "P"
     | g => showGet g))
 
+/-! ### C27: routing -/
+
+open Thanos.MultiRing in
+def parseMType (s : String) : Option MType :=
+  if s = "e" ∨ s = "x" then some .exact else if s = "g" then some .glob else if s = "o" then some .other else none
+
+open Thanos.MultiRing in
+/-- `<type>:<tenants>` with tenants a `,`-list of hex tokens (`~` = no tenant list) -/
+def parseCfgs (s : String) : Option (List (MType × List String)) :=
+  (listOf '|' s).mapM fun t =>
+    match splitChar ':' t with
+    | [ty, ts] => (parseMType ty).map fun m => (m, if ts = "~" then [] else splitChar ',' ts)
+    | _ => none
+
+open Thanos.MultiRing in
+def parseGlobTab (s : String) : Option (List GlobRes) :=
+  if s = "-" then some [] else
+  s.toList.mapM fun c => if c = 'y' then some .yes else if c = 'n' then some .no else if c = 'b' then some .bad else none
+
+open Thanos.MultiRing in
+/-- `<tenanthex>:<tab>/<tab>/…` one table per configuration -/
+def parseReq (cfgs : List (MType × List String)) (s : String) : Option (String × List Cfg) :=
+  match splitChar ':' s with
+  | [t, tabs] =>
+    match (splitChar '/' tabs).mapM parseGlobTab with
+    | some gs =>
+      if gs.length = cfgs.length then
+        some (t, (cfgs.zip gs).map fun (c, g) => { typ := c.1, tenants := c.2, glob := g })
+      else none
+    | none => none
+  | _ => none
+
+open Thanos.MultiRing in
+def showRoute : Route → String
+  | .ring i => toString i
+  | .none => "none"
+  | .err => "err"
+  | .ringOrErr i => s!"{i}?err"
+
+open Thanos.MultiRing in
+def viewOf (reqs : List (String × List Cfg)) (tenant : String) : List Cfg :=
+  match reqs.find? (·.1 == tenant) with
+  | some r => r.2
+  | none => []
+
 def handle : List String → String
   | ["ket", mode, rf, nq, eps, series] =>
     match parseNat? rf, parseNat? nq, parseEps eps, parseSeries series with
@@ -144,6 +198,20 @@ def handle : List String → String
         ketG true rf rf (eps.eraseIdx pos) ren vs ++ " " ++ ketG true rf rf eps (List.range eps.length) vs
       else "bad-op"
     | _, _, _, _ => "bad-op"
+  | ["route", cfgs, reqs] =>
+    match parseCfgs cfgs with
+    | some cfgs =>
+      match (listOf ';' reqs).mapM (parseReq cfgs) with
+      | some rs => joinWith ";" ((MultiRing.getNSeq (viewOf rs) [] (rs.map (·.1))).map showRoute)
+      | none => "bad-op"
+    | none => "bad-op"
+  | ["routem", cfgs, req] =>
+    match parseCfgs cfgs with
+    | some cfgs =>
+      match parseReq cfgs req with
+      | some r => showRoute (MultiRing.route r.1 r.2)
+      | none => "bad-op"
+    | none => "bad-op"
   | ["mod", nq, addrs, series] =>
     match parseNat? nq, parseAddrs addrs, parseSeries series with
     | some nq, some addrs, some vs => modG nq addrs addrs vs
